@@ -4,7 +4,6 @@ use ahash::{HashMap, HashMapExt};
 use anyhow::anyhow;
 use bimap::BiHashMap;
 use indexmap::{IndexMap, IndexSet};
-use itertools::Itertools;
 use matchit::InsertError;
 use pavex_bp_schema::MethodGuard;
 
@@ -591,14 +590,22 @@ impl PathRouter {
                             // No need to register a path-based fallback if we have a trailing catch-all
                             continue;
                         } else {
-                            // We strip the last parameter from the path prefix and substitute it with a catch-all
-                            // to create a fallback path.
-                            let stripped: String = parsed_prefix
-                                .raw
-                                .chars()
-                                .dropping_back(details.end - details.start + 1)
-                                .collect();
-                            fallback_path = Some(format!("{stripped}{{*catch_all}}"));
+                            // `<prefix>{*catch_all}` is not a valid path when the prefix ends
+                            // with a parameter. We can't replace the parameter with a catch-all
+                            // either: it would conflict with the routes nested under the prefix.
+                            // We register the prefix itself (with and without a trailing slash)
+                            // and a catch-all for everything below it.
+                            for path in [
+                                parsed_prefix.raw.clone(),
+                                format!("{}/", parsed_prefix.raw),
+                            ] {
+                                if validation_router.insert(path.clone(), ()).is_ok() {
+                                    path_catchall2fallback_id.insert(path.clone(), *id);
+                                    path_based_fallback_router.insert(path, *id).unwrap();
+                                }
+                            }
+                            fallback_path =
+                                Some(format!("{}/{{*catch_all}}", parsed_prefix.raw));
                         }
                     }
                 };
